@@ -71,6 +71,31 @@ def _argparse_options(p: Project):
     return out
 
 
+def cli_layer_rule(p: Project, rep: Report, rule: str = "J-R3"):
+    """the command-line layer holds exactly the options that were given: extractns() keeps every (name, value) of the
+    namespace whose value is not None - a False given by --no-transactions / --no-balances / --no-positions is a value"""
+    if rule == "J-R3":
+        rep.rule("J-R3", "options given on the command line reach the request: extractns() keeps every option whose value is not None (a False stored by --no-transactions / --no-balances / --no-positions is kept, so it overrides the default True)")
+    ens0 = _fn(p, "extractns")
+    ens = flat(p, OFXGET, ens0)
+    nsparam = params_of(ens)[0]
+    verdict = None
+    for lv in loop_views(ens):
+        if f"vars({nsparam})" not in text(lv.iter):
+            continue
+        tn = lv.target_names
+        for it, _c, k, v in stores_keyed_by(lv):
+            if not (len(tn) == 2 and isinstance(k, ast.Name) and k.id == tn[0] and isinstance(v, ast.Name) and v.id == tn[1]):
+                continue
+            if it.complex:
+                continue
+            verdict = sorted(it.filters) == [(f"{tn[1]} is None", False)]
+    if verdict is None:
+        rep.note(f"{rule} undecided: extractns() does not copy vars(ns) through a recognisable loop / comprehension")
+    else:
+        rep.check(rule, "extractns:only-options-given", verdict, "" if verdict else "the CLI layer is not `the options whose value is not None`", gloc(p, ens0))
+
+
 def g_rules(p: Project, rep: Report):
     defaults, conf = _configurable(p)
     rep.unit("defaults_keys", len(defaults))
@@ -105,24 +130,7 @@ def g_rules(p: Project, rep: Report):
         ok = roles == ["cli", "config", "defaults"]
         rep.check("G-R1", "merge_config:ChainMap(cli, config, defaults)", ok, f"sources are chained as {roles}: a lower-ranking source outranks a higher one" if not ok else "", gloc(p, c))
     # cli layer = only what was actually given (None filtered)
-    ens0 = _fn(p, "extractns")
-    ens = flat(p, OFXGET, ens0)
-    nsparam = params_of(ens)[0]
-    verdict = None
-    for lv in loop_views(ens):
-        if f"vars({nsparam})" not in text(lv.iter):
-            continue
-        tn = lv.target_names
-        for it, _c, k, v in stores_keyed_by(lv):
-            if not (len(tn) == 2 and isinstance(k, ast.Name) and k.id == tn[0] and isinstance(v, ast.Name) and v.id == tn[1]):
-                continue
-            if it.complex:
-                continue
-            verdict = sorted(it.filters) == [(f"{tn[1]} is None", False)]
-    if verdict is None:
-        rep.note("G-R1 undecided: extractns() does not copy vars(ns) through a recognisable loop / comprehension")
-    else:
-        rep.check("G-R1", "extractns:only-options-given", verdict, "" if verdict else "the CLI layer is not `the options whose value is not None`", gloc(p, ens0))
+    cli_layer_rule(p, rep, rule="G-R1")
     # ofxhome insert position
     mo0 = _fn(p, "merge_from_ofxhome")
     mo = flat(p, OFXGET, mo0)
@@ -494,7 +502,7 @@ def j_rules(p: Project, rep: Report):
     rep.check("J-R1", "convert_datetime:values-from-own-option", own_ok, "" if own_ok else "a date is converted from something other than its own option", gloc(p, cd0))
     for fname, idx, want_keys in (("request_stmt", 0, ["checking", "savings", "moneymrkt", "creditline", "creditcard", "investment"]), ("request_stmtend", 1, ["checking", "savings", "moneymrkt", "creditline", "creditcard"])):
         fn0 = _fn(p, fname)
-        fn = flat(p, OFXGET, fn0)
+        fn = flat(p, OFXGET, fn0, keep=("_merge_acctinfo", "_request_acctinfo"))
         sites = _request_ctor_sites(fn, p)
         seen: Dict[str, int] = {}
         for cls, c, keys, keyvar in sites:
